@@ -43,6 +43,9 @@ use std::{
 pub struct MemDb {
     pub accounts: HashMap<Address, AccountInfo>,
     pub codes: HashMap<B256, Bytecode>,
+    /// answer `basic_ref` without the bytecode (code is then fetched by hash), as disk-backed
+    /// databases do
+    pub lazy_code: bool,
 }
 
 #[derive(Clone, Debug)]
@@ -58,7 +61,12 @@ impl DBErrorMarker for DbErr {}
 impl DatabaseRef for MemDb {
     type Error = DbErr;
     fn basic_ref(&self, address: Address) -> Result<Option<AccountInfo>, DbErr> {
-        Ok(self.accounts.get(&address).cloned())
+        Ok(self.accounts.get(&address).cloned().map(|mut info| {
+            if self.lazy_code {
+                info.code = None;
+            }
+            info
+        }))
     }
     fn code_by_hash_ref(&self, code_hash: B256) -> Result<Bytecode, DbErr> {
         self.codes.get(&code_hash).cloned().ok_or_else(|| DbErr(format!("no code {code_hash}")))
@@ -190,7 +198,7 @@ enum Plan {
 }
 
 pub fn gen_block(rng: &mut Rng) -> Block {
-    let mut db = MemDb::default();
+    let mut db = MemDb { lazy_code: rng.chance(1, 2), ..Default::default() };
     for (a, c) in [(L_FWD, code_fwd()), (L_FWD2, code_fwd2()), (L_SD, code_sd()), (L_CRE, code_cre()), (REVERTER, code_reverter()), (BOUNCER, code_bouncer())] {
         db.put(addr(a), U256::ZERO, 1, Some(Bytecode::new_raw(c.into())));
     }
@@ -683,7 +691,10 @@ pub fn e2e_case(rng: &mut Rng, _i: u64, inp: &mut String, out: &mut String) {
                 let mut view: Vec<(Address, U256, bool)> = run
                     .state
                     .iter()
-                    .map(|(a, acc)| (*a, acc.info.balance, acc.info.code.as_ref().is_some_and(|c| c.is_eip7702())))
+                    .map(|(a, acc)| {
+                        let code = acc.info.code.as_ref().or_else(|| cur.codes.get(&acc.info.code_hash));
+                        (*a, acc.info.balance, code.is_some_and(|c| c.is_eip7702()))
+                    })
                     .collect();
                 view.sort();
                 write!(inp, " X {txid:x} {}", view.len()).unwrap();
